@@ -122,6 +122,24 @@ def _structure(ctx, p, rng):
                 a[1:, pp] = big * 0.3 * rng.normal(size=(D - 1, n, n))
         a = 0.5 * (a + np.swapaxes(a, -1, -2))
         algopy.eigh(UTPM(a)); algopy.svd(UTPM(a)); algopy.qr(UTPM(a)); algopy.inv(UTPM(a + 5 * np.eye(n)))
+        # well-conditioned matrices, one direction 1e17 (resp. 1e-12) times larger than the others: rank decisions and pivoting per direction
+        for big2 in (1e17, 1e-12, 'overflow'):
+            b = gen.series_data(rng, D, P, (n, n), 'R', 'random', False, 0.3)
+            for pp in range(P):
+                b[0, pp] = gen.well_conditioned(rng, n, n) + 2 * np.eye(n)
+            if big2 == 'overflow':
+                # the higher coefficients of direction 0 are so large that its products overflow: that is direction 0's problem only
+                big2 = 1.0
+                if D > 1:
+                    b[1:, 0] *= 1e170
+            else:
+                b[:, 0] *= big2
+            B = UTPM(b)
+            algopy.qr(B); algopy.qr(UTPM(b[:, :, :, :2].copy())); algopy.lu(B); UTPM.lu2(B); UTPM.lu_factor(B) if hasattr(UTPM, 'lu_factor') else None
+            algopy.inv(B); algopy.solve(B, UTPM(rng.normal(size=(D, P, n, 2)))); algopy.solve(B, rng.normal(size=(n, 2))); algopy.det(B)
+            sp_ = np.einsum('dpij,dpkj->dpik', b[:1], b[:1]); bs = b.copy(); bs[0] = sp_[0] / np.max(np.abs(sp_[0]), axis=(1, 2), keepdims=True) * np.abs(big2 if False else 1.0)
+            bs = 0.5 * (bs + np.swapaxes(bs, -1, -2)); bs[0] += 2 * np.eye(n); bs[:, 0] *= big2
+            algopy.cholesky(UTPM(bs))
     elif what == 'jacobian':
         # CGraph.jacobian with a Taylor-polynomial argument carrying several different directions
         from .. import polyprog as PP
